@@ -17,23 +17,25 @@ func init() { scenarios["C18"] = runC18 }
 
 // member is a scripted underlying transport (one incarnation).
 type member struct {
-	s              *Sim
-	id             int
-	cfg            transport.DialConfig
-	rx             chan []byte
-	fail           chan struct{} // closed: Read returns readErr
-	readErr        error
-	closed         chan struct{}
-	isClosed       bool
-	failed         bool
-	failNextWrites int
-	accepted       [][]byte // writes accepted by this incarnation, in order
-	acceptedAt     []int64
-	delivered      int // frames handed to Read
-	tx, rxb        uint64
-	unrel          bool
-	unrelAccepted  [][]byte // datagrams written to this member's unreliable side
-	closeErr       error    // CloseWithStatus tears the connection down but reports this error
+	s               *Sim
+	id              int
+	cfg             transport.DialConfig
+	rx              chan []byte
+	fail            chan struct{} // closed: Read returns readErr
+	readErr         error
+	closed          chan struct{}
+	isClosed        bool
+	failed          bool
+	failNextWrites  int
+	accepted        [][]byte // writes accepted by this incarnation, in order
+	acceptedAt      []int64
+	delivered       int // frames handed to Read
+	tx, rxb         uint64
+	unrel           bool
+	unrelAccepted   [][]byte // datagrams written to this member's unreliable side
+	closeErr        error    // CloseWithStatus tears the connection down but reports this error
+	breakAfterWrite bool     // the next accepted data frame is followed at once by a read error
+	pingsIn         int      // control pings delivered to this connection
 }
 
 func (m *member) Read() ([]byte, error) {
@@ -71,6 +73,15 @@ func (m *member) Write(b []byte) error {
 	s.memberClock++
 	m.acceptedAt = append(m.acceptedAt, s.memberClock)
 	m.tx += uint64(len(b))
+	if m.breakAfterWrite && !m.failed && !reconnect.IsPong(b) {
+		// the connection takes this frame and breaks right afterwards: the reader sees the error
+		// while the writer is still on its way back from Write
+		m.breakAfterWrite = false
+		m.failed = true
+		m.readErr = errors.New("dsim: connection reset")
+		close(m.fail)
+		s.stats["fault.read-error-right-after-accepted-write"]++
+	}
 	return nil
 }
 
@@ -302,13 +313,23 @@ func runC18(s *Sim) {
 			acts = append(acts, Action{Name: "peer-ping", W: 2, Do: func() {
 				if cur.deliver(reconnect.PingMessage) {
 					pings++
+					s.mu.Lock()
+					cur.pingsIn++
+					s.mu.Unlock()
 				}
 			}})
 			if faults > 0 && !closed {
 				acts = append(acts, Action{Name: "fault", W: 3, Do: func() {
 					faults--
 					s.Nontrivial()
-					kind := Pick(t, "fault-kind", "read-error", "write-error", "both", "read-error+dial-fail", "read-error+handshake-fail", "write-error+dial-fail")
+					kind := Pick(t, "fault-kind", "read-error", "write-error", "both", "read-error+dial-fail", "read-error+handshake-fail", "write-error+dial-fail", "break-after-next-write")
+					if kind == "break-after-next-write" {
+						s.mu.Lock()
+						cur.breakAfterWrite = true
+						s.mu.Unlock()
+						s.Logf("fault: member %d breaks right after the next accepted write", cur.id)
+						return
+					}
 					if strings.Contains(kind, "dial-fail") {
 						k := Pick(t, "dialfail-n", 1, 2, maxAttempts-1)
 						if exhaust {
@@ -406,6 +427,21 @@ func runC18(s *Sim) {
 		if op != nil && op.harvested && op.Err == nil {
 			rec := &rwRec{Payload: "w|still-alive", Task: 0, Op: op}
 			writes = append(writes, rec)
+			// the transport is provably alive: the connection it uses now has answered every control
+			// ping it received, on itself
+			if cur := d.current(); cur != nil {
+				s.mu.Lock()
+				in, out := cur.pingsIn, 0
+				for _, b := range cur.accepted {
+					if reconnect.IsPong(b) {
+						out++
+					}
+				}
+				s.mu.Unlock()
+				if out < in { // (a pong for a ping of the previous connection may legitimately land here as well)
+					s.Violate("C18.ping-unanswered", "", "connection %d (in use at the end, a write just succeeded on it) received %d control pings but only %d pongs were written to it", cur.id, in, out)
+				}
+			}
 		}
 	}
 	alive = d.current() != nil && !closed
